@@ -316,11 +316,11 @@ def c30_worker(binary, texts, wid):
                     reqs += requests_for(uri, ln, ch)
             for method, params in reqs:
                 nreq += 1
-                r = s.request(method, params, timeout=15)
+                r = s.request(method, params, timeout=60)
                 if r is None:
                     pt = s.panic_text()
                     viol.append({"id": tid, "text": text, "method": method, "params": params,
-                                 "outcome": pt or ("server exited" if not s.alive() else "no response within 15 s")})
+                                 "outcome": pt or ("server exited" if not s.alive() else "no response within 60 s")})
                     restart()
                     break
     finally:
@@ -446,7 +446,7 @@ class LsDoc:
         else:
             self.s.notify("textDocument/didChange", {"textDocument": {"uri": self.uri, "version": self.ver}, "contentChanges": [{"text": text}]})
 
-    def req(self, method, params, timeout=30):
+    def req(self, method, params, timeout=90):
         r = self.s.request(method, params, timeout=timeout)
         if r is None:
             why = self.s.panic_text() or ("server exited" if not self.s.alive() else "no response")
